@@ -1254,6 +1254,31 @@ def fam_args(rng, n, dist):
     return out
 
 
+def fam_greetings(rng, n, dist):
+    """the aggregates the calls of a session return: every reply that arrived in the call, in order - connect() with greetings
+    of one and two replies (220; 120 + 220; 120 + a refusal; a refusal), with and without a login, then a few operations"""
+    out = []
+    shapes = [(220,), (120, 220), (120, 530), (120, 421), (530,), (120, 220), (220,), (120, 550)]
+    for i in range(n):
+        b = S.Builder(rng, *ALL_METHODS[i % 4], type=rng.choice("IA"))
+        g = shapes[i % len(shapes)]
+        b.connect(login=((b"u", b"p") if i % 3 else None), greeting=g)
+        dist.add("greetings:%s:%s" % ("+".join(map(str, g)), "login" if i % 3 else "no-login"))
+        if b.connected and g[-1] < 400:
+            if i % 3 == 0:
+                b.login(b"u", b"p", plan=dict(user=rng.choice([331, 230, 530])))
+            for _ in range(rng.randrange(0, 3)):
+                if rng.random() < 0.5:
+                    add_simple(b, rng)
+                else:
+                    add_transfer(b, rng, dist, refuse_at=rng.choice([None, None, "setup", "cmd"]))
+            b.logout(codes=rng.choice([(220,), (120, 220), (500,)]))
+        if b.connected:
+            b.disconnect(rng.random() < 0.7)
+        out.append(b.scenario())
+    return out
+
+
 def fam_linelen(rng, n, dist):
     """command lines of every length in windows around 128, 256, 512, 1024, 2048, 4096, 8192, 16384: each one line, each
     ended by CR LF, the next command a line of its own"""
@@ -1830,7 +1855,7 @@ def fam_dispatch(rng, n, dist):
 
 ORACLES.update(tls=oracle_tls, reuse=oracle_reuse, endpoints=oracle_endpoints, aggregates=oracle_aggregates)
 
-FAMILIES = dict(linelen=lambda r, n, d, th: fam_linelen(r, n, d), tlsplain=lambda r, n, d, th: fam_tlsplain(r, n, d), mixed=lambda rng, n, dist, th: gen_mixed(rng, "quick", dist, n), observers=lambda r, n, d, th: fam_observers(r, n, d),
+FAMILIES = dict(greetings=lambda r, n, d, th: fam_greetings(r, n, d), linelen=lambda r, n, d, th: fam_linelen(r, n, d), tlsplain=lambda r, n, d, th: fam_tlsplain(r, n, d), mixed=lambda rng, n, dist, th: gen_mixed(rng, "quick", dist, n), observers=lambda r, n, d, th: fam_observers(r, n, d),
                 abor=lambda r, n, d, th: fam_abor(r, n, d), downloads=fam_downloads, uploads=fam_uploads, ascii=fam_ascii, faults=fam_faults,
                 refusals=lambda r, n, d, th: fam_refusals(r, n, d), cancel=lambda r, n, d, th: fam_cancel(r, n, d),
                 args=lambda r, n, d, th: fam_args(r, n, d), tls=lambda r, n, d, th: fam_tls(r, n, d),
@@ -1853,6 +1878,7 @@ PROPS = {
     "C13": dict(fam=[("reconnect", 6), ("tls", 1)], proj=["out", "state", "held", "wire"], oracles=["state", "sockets", "lockstep", "tls"], n=(120, 600)),
     "C18": dict(fam=[("reuse", 1)], proj=["out", "wire"], oracles=["reuse"], n=(60, 300)),
     "C08": dict(fam=[("faults", 6), ("tlsplain", 1)], proj=["out", "state"], oracles=["terminates"], n=(120, 600), variant="asan"),
+    "C15": dict(fam=[("greetings", 1)], proj=["out"], oracles=["lockstep", "aggregates"], n=(48, 240)),
     "C05": dict(fam=[("ascii", 1)], proj=["out", "io"], oracles=["transfers"], n=(60, 300)),
     "C06": dict(fam=[("dispatch", 5), ("tls", 1)], proj=["out", "wire", "held"], oracles=["endpoints", "commands"], n=(160, 800)),
 }
